@@ -38,8 +38,8 @@ func (r *intsRanger) Range() (index, value reflect.Value, end bool) {
 	// using the concrete value of 'i' and 'val'. The downside is having
 	// to interpret 'r.i' as "the current value" after Range() returns,
 	// and so it needs to be initialized as -1.
-	index = reflect.ValueOf(&r.i).Elem()
-	value = reflect.ValueOf(&r.val).Elem()
+	index = reflect.ValueOf(r.i)
+	value = reflect.ValueOf(r.val)
 	return
 }
 
